@@ -25,6 +25,7 @@ EXPLANATION = (
 )
 EXPLANATION += " R07.17: an import statement is managed as whole lines only if every path to its registration consulted a comparison with the neighbouring statements' lines."
 EXPLANATION += " R07.18: the reader of `__all__` takes names from a list display and from a tuple display alike."
+EXPLANATION += " R07.19: the used-name finder visits every non-body child of a def / class (decorators, parameters, annotations, bases, keywords, type parameters) in the enclosing scope."
 ASSUMPTIONS = ["scope-opening constructors without a handler in the finder (async def, lambda, comprehensions) only make more names count as used: conservative, not armed"]
 
 FINDER = "rope.refactor.importutils.module_imports._UnboundNameFinder"
@@ -52,6 +53,7 @@ def check(ctx, res) -> None:
     _use_regardless_of_ctx_rule(ctx, res)
     _whole_line_ownership_rule(ctx, res)
     _all_literal_forms_rule(ctx, res)
+    header_children_rule(ctx, res, "R07.19")
 
 
 def _use_regardless_of_ctx_rule(ctx, res) -> None:
@@ -671,3 +673,44 @@ def _all_literal_forms_rule(ctx, res) -> None:
                 f"the elements of `__all__` are read only when the literal is one of {sorted(kinds)}, not {missing}: with `__all__ = (\"sqrt\",)` the import that binds `sqrt` "
                 "counts as unused and organize imports removes it -- `from m import *` elsewhere loses the name", function=f.qualname)
     res.floor("R07.18", "readers of the literal's elements", n, 1)
+
+
+def header_children_rule(ctx, res, rule: str) -> None:
+    """R07.19 (= R05.20): what a def / class statement USES outside its body -- decorators, the parameter list with its defaults and
+    annotations, the return annotation, bases, keywords (`metaclass=...`), PEP 695 type parameters -- belongs to the names the
+    enclosing scope uses; an import that is used only there must stay.  The used-name finder hands every non-body child of the
+    statement to itself (the enclosing scope).  Either it iterates over ALL children (`ast.iter_child_nodes` / `iter_fields`) and
+    leaves out the body, or it names the fields: then the fields read in the method, its helpers and its callers cover every
+    node-valued field of FunctionDef and of ClassDef in the running interpreter's grammar other than `body`."""
+    from ..grammar import G
+    from .common import with_private_helpers
+    idx = ctx.idx
+    cls = idx.need_class(FINDER)
+    cands = [m for m in cls.methods.values() if any(call_name(c) == LOCAL.split(".")[-1] for c in calls_in(m.node))]
+    if len(cands) != 1:
+        raise AnalysisError(f"anchor={FINDER}: the method that opens the child-scope finder not unique ({[m.name for m in cands]})")
+    m = cands[0]
+    callers = [g for g in cls.methods.values() if any(is_self_attr(c.func, m.name) for c in calls_in(g.node))]
+    fam = list({g.qualname: g for g in with_private_helpers(idx, m) + callers}.values())
+    generic = any(isinstance(c, ast.Call) and call_name(c) in ("iter_child_nodes", "iter_fields") for g in fam for c in ast.walk(g.node))
+    need = {}
+    for ctor in ("FunctionDef", "ClassDef"):
+        need[ctor] = sorted(f.name for f in G.ctors[ctor].fields if f.is_node and f.name != "body")
+    if generic:
+        res.add(rule, f"{m.name}|every-header-child-is-visited-outside", True, m.where,
+                "every child of the statement that is not in its body is visited in the enclosing scope (generic iteration over the children)", function=m.qualname)
+        return
+    read = set()
+    for g in fam:
+        for x in ast.walk(g.node):
+            if isinstance(x, ast.Attribute) and isinstance(x.value, ast.Name):
+                read.add(x.attr)
+            if isinstance(x, ast.Call) and call_name(x) == "getattr" and len(x.args) >= 2 and isinstance(x.args[1], ast.Constant):
+                read.add(x.args[1].value)
+    for ctor, fields in need.items():
+        missing = [f for f in fields if f not in read]
+        res.add(rule, f"{m.name}|every-header-child-is-visited-outside:{ctor}", not missing, m.where,
+                f"the header fields of {ctor} are named and complete ({fields})" if not missing else
+                f"the header of a {ctor} is visited field by field, and {missing} of {fields} is not among the fields read: a name used only there "
+                "(`class Shape(metaclass=ABCMeta)`, `def size[T: collections.abc.Sized](x: T)`) does not count as used, organize imports removes its import, and the moved or "
+                "tidied module raises NameError", function=m.qualname, fields_read=sorted(read & set(fields)))
